@@ -225,6 +225,9 @@ def known_shape(kind: str, opexpr: str, item, a: str, b: str) -> str:
     """narrow shape of a *known* difference on the unchanged tree, else "other" """
     if a == "exc IndexError: 'string index out of range'" and b == "exc IndexError: 'index out of range'":
         return "str-index-message"
+    if opexpr == "s.lower()" and item is not None and item[0] == 0x3A3 and a != b and a.replace("\\u03c2", "\\u03c3") == b:
+        # Greek capital sigma: CPython lower-cases a word-final sigma to U+03C2, CPyStr_Lower maps per character
+        return "lower-final-sigma"
     return "other"
 
 
